@@ -275,6 +275,14 @@ class KLoop(selector_events.BaseSelectorEventLoop):
         # source of a datagram is the RESOLVED address, not the configured string
         if remote_addr and remote_addr[0] in RESOLVER:
             remote_addr = (RESOLVER[remote_addr[0]], remote_addr[1])
+        # connecting the datagram socket can fail at once (no route, interface down, EACCES on a broadcast address)
+        peer0 = self.kern.peer_for(remote_addr)
+        hook = getattr(peer0, 'on_udp_connect', None)
+        if hook is not None:
+            o = hook()
+            if o != 'ok':
+                self.kern.log.append(('connect', o, self.kern.now))
+                raise OSError(errno.ENETUNREACH if o == 'netunreach' else errno.EACCES, 'connect: ' + o)
         sock = FakeSock(self.kern, 'udp', remote_addr)
         protocol = protocol_factory()
         waiter = self.create_future()
